@@ -96,6 +96,41 @@ def run(tier, seed, replay=None):
             rep.violation("%s:%s:%s" % (flt, h["caller"], "+".join(kinds)[:60]),
                           "%s:%s with real uid %d (effective %d): %s" % (flt, csv.decode()[:80], uid, EUID, prob),
                           dict(filter=flt, list_tokens=h["list"], list_text=csv.decode()[:400], real_uid=uid, effective_uid=EUID, member=h.get("member")))
+    # lists longer than one snoopy.ini line (up to 200 ten-digit uids): through the registry directly (static link with the scratch archives)
+    import subprocess, os
+    src = b["src"]
+    probe = os.path.join(b["root"], "fltprobe")
+    r_ = subprocess.run(["gcc", "-g", "-O1", "-w", "-I" + src + "/src", "-I" + src, "-o", probe, os.path.join(c.VERIF, "harness/fltprobe.c"),
+                         src + "/src/.libs/libsnoopy-no-entrypoint.a", "-lpthread", "-ldl"], capture_output=True, text=True)
+    if r_.returncode:
+        raise c.MachineryError("cannot build the filter probe: " + r_.stderr[-800:])
+    longcases = []
+    for k in range(120 if tier == "quick" else 1200):
+        cname = rnd.choice(sorted(UID))
+        uid = UID[cname]
+        n = rnd.choice([120, 200])
+        toks = [rnd.choice(["self+1", "self-1", "prefix", "suffix", "other1", "euid"]) for _ in range(n)]
+        vals = [token_value(t, uid) or "777" for t in toks]
+        vals = [v if v != str(uid) else "778" for v in vals]
+        member = rnd.random() < 0.5
+        if member:
+            vals[rnd.choice([0, n // 2, n - 1, rnd.randrange(n)])] = str(uid)       # also at the very end of a 1000+ byte list
+        longcases.append((uid, ",".join(vals), member))
+    inp = "".join("%d %d %s %s\n" % (uid, EUID, flt, csv) for uid, csv, member in longcases for flt in ("only_uid", "exclude_uid"))
+    pr = subprocess.run([probe], input=inp, capture_output=True, text=True, timeout=600)
+    outs = pr.stdout.split()
+    if len(outs) != 2 * len(longcases):
+        raise c.MachineryError("filter probe answered %d of %d questions: %s" % (len(outs), 2 * len(longcases), pr.stderr[-300:]))
+    for i, (uid, csv, member) in enumerate(longcases):
+        for j, flt in enumerate(("only_uid", "exclude_uid")):
+            want = "PASS" if (member if flt == "only_uid" else not member) else "DROP"
+            if outs[2 * i + j] != want:
+                pos = [k for k, v in enumerate(csv.split(",")) if v == str(uid)]
+                rep.violation("%s:long-list:%s" % (flt, "member-beyond-1023-bytes" if pos and len(",".join(csv.split(",")[:pos[0]])) > 1023 else "other"),
+                              "%s with a list of %d uids (%d bytes), real uid %d %s: filter says %s, membership says %s" % (
+                                  flt, csv.count(",") + 1, len(csv), uid, "listed at item %d" % (pos[0] + 1) if pos else "not listed", outs[2 * i + j], want),
+                              dict(filter=flt, real_uid=uid, list_bytes=len(csv), member=member))
+    rep.cov["long_lists_through_registry"] = len(longcases)
     rep.cov["traces_validated_against_impl"] = len(cases)
     rep.cov["evaluations"] = len(cases)
     rep.cov["distinct_nontrivial"] = len(nontriv)
